@@ -3,7 +3,7 @@
    as 8 byte limbs, a stack addressed through rsp), independent of the x86 dialect.  A program is DATA (parsed from the emitted
    assembly by harness/drivers/c21.py):  ins = [op, dst, src (register names or ""), imm (8 limbs), tgt].
    Machine state r = [x |-> [register |-> 8 limbs], mem |-> << <<address, value>> ... >>, pc, status, steps].
-   SysV ABI checked by the judge: integer arguments in rdi, rsi, rdx, rcx, r8, r9; result in rax; rbx, rbp, r12-r15 and rsp hold
+   SysV ABI checked by the judge: integer arguments in rdi, rsi, rdx, rcx, r8, r9, further ones on the stack above the return address; result in rax; rbx, rbp, r12-r15 and rsp hold
    their entry values when `ret` executes (and the return address is on top of the stack). *)
 EXTENDS BV, TLC
 
@@ -33,6 +33,9 @@ Step(code, r) ==
     [] i.op = "pop" -> LET v == Load(r, r.x["rsp"]) IN
                        IF v = <<"undef">> THEN [r EXCEPT !.status = "pop-of-unwritten-stack"]
                        ELSE Next1([r EXCEPT !.x[i.dst] = v, !.x["rsp"] = Add(r.x["rsp"], Eight, W)])
+    [] i.op = "load" -> LET v == Load(r, Add(r.x[i.src], i.imm, W)) IN       \* mov dst, [src + imm]
+                        IF v = <<"undef">> THEN [r EXCEPT !.status = "load-of-unwritten-memory"]
+                        ELSE Next1([r EXCEPT !.x[i.dst] = v])
     [] i.op = "nop" -> Next1(r)
     [] i.op = "jmp" -> [r EXCEPT !.pc = i.tgt, !.steps = @ + 1]
     [] i.op = "ret" -> [r EXCEPT !.status = "done"]
